@@ -214,3 +214,29 @@ Proof.
     replace (fst (fst r) + 1 - 1) with (fst (fst r)) by lia. replace (c + 1 - 1) with c by lia.
     repeat split; assumption.
 Qed.
+
+(* ------------------------------------------------------------------------ everything composed, one sample *)
+Lemma Forall2_weaken : forall A B (R S : A -> B -> Prop) l1 l2,
+  (forall a b, R a b -> S a b) -> Forall2 R l1 l2 -> Forall2 S l1 l2.
+Proof. intros A B R S l1 l2 H H2. induction H2; constructor; auto. Qed.
+
+Theorem polyphase_sample_ok : forall d k acc gs cols rest sens dec (recs : list inrec),
+  SolvesN AlwaysCandidate d k gs cols -> Forall (fun g => length g = k) gs ->
+  strictly_incZ acc = true -> length acc = length gs ->
+  nondecN (map fst ((0%nat, true) :: rest)) = true ->
+  Forall (fun b => (fst b < length acc)%nat) ((0%nat, true) :: rest) ->
+  (forall p a g r, nth_error acc p = Some a -> nth_error gs p = Some g -> In r recs -> fst (fst r) = a ->
+      Permutation (snd (fst r)) g /\ is_het g = true /\ ~ In undet g /\ g <> []) ->
+  exists outs, sample_out acc cols (compute_cuts sens dec ((0%nat, true) :: rest)) recs = Some outs /\
+               sample_okb (map (fun a => a + 1) acc) (obs_of_model recs outs) = true.
+Proof.
+  intros d k acc gs cols rest sens dec recs Hsol Hg Hinc Hlen Hsorted Hin Hrecs.
+  pose proof (pipeline_conforms d k gs cols Hsol Hg) as Hconf.
+  destruct (cuts_sorted_start_at_zero sens dec rest Hsorted) as [Hok Hsub].
+  apply (sample_output_ok acc cols _ gs recs Hinc Hok).
+  - apply Forall_forall. intros c Hc. specialize (Hsub c Hc). apply in_map_iff in Hsub.
+    destruct Hsub as [b [Hb Hbin]]. subst c. rewrite Forall_forall in Hin. apply Hin. exact Hbin.
+  - destruct (Forall2_to_nth _ _ _ [] [] _ _ Hconf) as [Hl _]. lia.
+  - eapply Forall2_weaken; [| exact Hconf]. intros g c [_ H]. exact H.
+  - exact Hrecs.
+Qed.
